@@ -9,7 +9,10 @@
     Two classes are outside the theorems and are known findings (witnesses at the end):
     - partial commit: the SECOND store of CommissioningComplete fails ([OComplete _ 2]) or power
       is lost between its two stores ([OCompleteCut _ 1]);
-    - context switch: AddNOC on a CASE session whose fabric has staged changes ([orphaning]).
+    - context switch: AddNOC on a CASE session whose fabric has staged changes ([orphaning]);
+    - VID statement: SetVIDVerificationStatement with no NOC command pending stores the whole
+      fabric, staged changes included (it is one of the operations with [may_store] = true, so
+      the theorems below are true of it; [C08_vid_statement_witness] shows the violation).
     Failing IMMEDIATE stores (ACL writes outside the fail-safe, [good_op]) are another
     property's subject (C11). *)
 From Coq Require Import NArith List Bool.
@@ -44,9 +47,36 @@ Theorem C08_rollback_exact :
 Proof. exact rollback_exact. Qed.
 Print Assumptions C08_rollback_exact.
 
-(** Which operations can reach the store at all: only CommissioningComplete and ACL writes on a
-    fabric the fail-safe is not armed for.  Everything else - all credential commands, network
-    writes, ACL writes of the fail-safe's fabric - is staged in RAM. *)
+(** The same with the excluded classes spelled out ([in_scope]): from any [st0] with RAM = load(KV),
+    after ArmFailSafe and ANY sequence of operations none of which is a failing immediate store
+    ([good_op]), an orphaning context switch ([orphaning]), a VID-statement leak ([vid_leak]), a
+    CommissioningComplete, or a write from outside the fail-safe's context ([outside_write]) -
+    every way of ending the commissioning restores fabrics (ACLs, labels, vendor ids, NOCs),
+    networks, breadcrumb and the stored blobs exactly. *)
+Theorem C08_rollback_exact_outside_classes :
+  forall st0 s t bc ops r,
+  Inv st0 -> s_fs st0 = Idle -> t <> 0 ->
+  snd (step st0 (OArm s t bc)) = StOk ->
+  let st1 := fst (step st0 (OArm s t bc)) in
+  in_scope st1 ops ->
+  let st := exec st1 ops in
+  rollback_op r -> snd (step st r) = StOk ->
+  let st' := fst (step st r) in
+  cfg_eq (s_fabs st') (s_fabs st0) /\ s_nets st' = s_nets st0 /\ s_bc st' = s_bc st0 /\
+  s_kv st' = s_kv st0 /\ s_fs st' = Idle.
+Proof. exact rollback_exact_outside_classes. Qed.
+Print Assumptions C08_rollback_exact_outside_classes.
+
+(** ... and these are all the ways to reach the store. *)
+Theorem C08_store_writers :
+  forall st o, may_store st o = is_complete o || outside_write st o || vid_leak st o.
+Proof. exact may_store_split. Qed.
+Print Assumptions C08_store_writers.
+
+(** Which operations can reach the store at all: only CommissioningComplete, ACL / label writes on a
+    fabric the fail-safe is not armed for, and a VID statement while no AddNOC / UpdateNOC of the
+    context is pending for its fabric.  Everything else - all credential commands, network writes,
+    ACL and label writes of the fail-safe's fabric - is staged in RAM. *)
 Theorem C08_store_frozen_under_failsafe :
   forall st o, may_store st o = false -> s_kv (fst (step st o)) = s_kv st.
 Proof. exact store_frozen. Qed.
@@ -152,6 +182,23 @@ Theorem C08_order_complete :
 Proof. exact order_complete. Qed.
 Print Assumptions C08_order_complete.
 
+(** The record of accepted credential commands changes only by an accepted credential command: any
+    other operation (re-arming included) leaves the flags alone, ends the fail-safe period, or
+    starts a new one with no flag. *)
+Theorem C08_flags_only_by_credential_commands :
+  forall st o,
+  cred_of o = None ->
+  match s_fs (fst (step st o)) with
+  | Idle => True
+  | Armed _ fl' =>
+    match s_fs st with
+    | Idle => fl' = fl_empty
+    | Armed _ fl => fl' = fl
+    end
+  end.
+Proof. exact flags_other. Qed.
+Print Assumptions C08_flags_only_by_credential_commands.
+
 (** The automaton's language is finite and written out in [spec_words]: CSR(add) and root in either
     order then AddNOC; CSR(update) then UpdateNOC (a root only where it cannot be used); each
     command at most once. *)
@@ -197,6 +244,17 @@ Theorem C08_context_switch_witness :
 Proof. exact (conj context_switch_orphans_staged_change context_switch_not_safe). Qed.
 Print Assumptions C08_context_switch_witness.
 
+Theorem C08_vid_statement_witness :
+  let st := exec w_init2 w_vid in
+  s_fs st = Idle /\
+  option_map f_acl (fget 1 (s_fabs st)) = Some [ADMIN; 5] /\
+  option_map f_acl (fget 1 (k_fabs (s_kv st))) = Some [ADMIN; 5] /\
+  option_map f_acl (fget 1 (s_fabs w_init2)) = Some [ADMIN] /\
+  safe_run w_init2 w_vid /\ ~ nothing_stored w_init2 w_vid /\
+  vid_leak (exec w_init2 [OArm (SC 1) 60 5; OAclW (SC 1) 5 false]) (OVid (SC 1) 65522 false) = true.
+Proof. exact vid_statement_stores_staged_change. Qed.
+Print Assumptions C08_vid_statement_witness.
+
 (** ** Non-vacuity: the hypotheses hold on the two commissioning flows, which do change things *)
 Example C08_pase_flow_meets_hypotheses :
   snd (step w_init (OArm SP 60 5)) = StOk /\
@@ -216,6 +274,14 @@ Example C08_update_flow_meets_hypotheses :
   nothing_stored (fst (step w_init2 (OArm (SC 1) 60 5))) w_update /\
   fget 1 (s_fabs (exec w_init2 (OArm (SC 1) 60 5 :: w_update))) <> fget 1 (s_fabs w_init2).
 Proof. exact update_flow_is_safe. Qed.
+
+Example C08_label_staged_and_rolled_back :
+  let ops := [OAclW (SC 1) 5 false; OLabel (SC 1) 3 false] in
+  let st1 := fst (step w_init2 (OArm (SC 1) 60 5)) in
+  safe_run st1 ops /\ nothing_stored st1 ops /\
+  option_map f_label (fget 1 (s_fabs (exec st1 ops))) = Some 3 /\
+  fget 1 (s_fabs (exec st1 (ops ++ [OTimeout]))) = fget 1 (s_fabs w_init2).
+Proof. exact label_is_staged_and_rolled_back. Qed.
 
 Example C08_commit_happens :
   snd (step (exec w_init (OArm SP 60 5 :: w_staging)) (OComplete (SC 2) 0)) = StOk.
